@@ -63,7 +63,7 @@ def witness_status(path, build='asan'):
     hdr = {}
     for line in open(path):
         w = line.split(None, 1)
-        if len(w) == 2 and w[0] in ('property', 'config', 'code', 'runner'):
+        if len(w) == 2 and w[0] in ('property', 'config', 'code', 'runner', 'view'):
             hdr[w[0]] = w[1].strip()
     cfg = cfggen.parse_name(hdr['config'])
     b = core.Builder(tag=build)
@@ -71,16 +71,16 @@ def witness_status(path, build='asan'):
     binp, log = built[cfg['name']]
     if binp is None:
         return ('fail', hdr['property'] + '.does_not_compile', log)
-    return core.replay_once(binp, path)
+    return core.replay_once(binp, path, int(hdr.get('view', 0)))
 
 
 def replay(path):
     hdr = {}
     for line in open(path):
         w = line.split(None, 1)
-        if len(w) == 2 and w[0] in ('property', 'config', 'code', 'runner'):
+        if len(w) == 2 and w[0] in ('property', 'config', 'code', 'runner', 'report_as'):
             hdr[w[0]] = w[1].strip()
-    pid = hdr.get('property', 'C00')
+    pid = hdr.get('report_as') or hdr.get('property', 'C00')
     runner = hdr.get('runner')
     if runner:
         import special
